@@ -17,20 +17,6 @@ reset with the domain, it starts from its initial value in `comb`, and no other 
 
 namespace Amaranth
 
-/-- bit `b` of signal `i` lies in the operand of a part-select occurring in the target -/
-def underPart : Expr → Nat → Nat → Ctx → Bool
-  | .op1 .u a, i, b, ctx => underPart a i b ctx
-  | .op1 .s a, i, b, ctx => underPart a i b ctx
-  | .slice a _ _, i, b, ctx => underPart a i b ctx
-  | .part a _ _ _, i, b, ctx => drivenBy a i b ctx || underPart a i b ctx
-  | .cat lo hi, i, b, ctx => underPart lo i b ctx || underPart hi i b ctx
-  | .ite _ _ thn els, i, b, ctx => underPart thn i b ctx || underPart els i b ctx
-  | _, _, _, _ => false
-
-/-- the target drives bit `b` of signal `i`: some position of it can be that bit, or the bit lies in the operand of a
-part-select inside it -/
-def drivenP (ctx : Ctx) (e : Expr) (i b : Nat) : Bool := drivenBy e i b ctx || underPart e i b ctx
-
 /-- is bit `b` of signal `i` driven by this program? -/
 def progDrivesP (ctx : Ctx) (prog : List Prog) (i b : Nat) : Bool :=
   (Prog.listTargets prog).any fun t => drivenP ctx t i b
